@@ -6,7 +6,8 @@
 (*   block  ::= header lines, then any number of S-lines and comment       *)
 (*              lines, then blank lines, then the count line, then edges   *)
 (*              (blank lines anywhere in a block carry no meaning)         *)
-(*   header ::= "# text"               -- the first header line is the id  *)
+(*   header ::= "# text" | "#"         -- the first header line is the id  *)
+(*                                        (a bare "#": the empty id)       *)
 (*   S-line ::= "#S n1 n2 ..."         -- a subpath constraint             *)
 (*   fields of S-lines and edge lines are separated by whitespace: a       *)
 (*   space or a tab (Separators)                                           *)
@@ -37,7 +38,8 @@ Corruptions == {"none", "edge_2_fields", "edge_4_fields", "weight_not_numeric", 
 ConsKinds == {"none", "one", "duplicate", "single_node", "two"}
 
 Separators == {"space", "tab"}        \* the field separator of S-lines and edge lines: any whitespace separates fields
-BlockDescs == [shape : 1..Len(Shapes), nhead : 1..2, cons : ConsKinds, blanks : 0..2, extra : BOOLEAN, corr : Corruptions,
+(* nhead: 1 one header line with text, 2 two of them, 3 a bare "#" followed by a header line with text, 4 a bare "#" only *)
+BlockDescs == [shape : 1..Len(Shapes), nhead : 1..4, cons : ConsKinds, blanks : 0..2, extra : BOOLEAN, corr : Corruptions,
                sep : Separators]       \* blanks: 0 none, 1 a blank line before the count line, 2 a blank line inside the edge list
 Sep(b) == IF b.sep = "tab" THEN "\t" ELSE " "
 
@@ -62,7 +64,7 @@ EdgeLine(e, corr, first, sp) ==
 
 Lines(b, idtxt) ==
   LET edges == Shapes[b.shape] IN
-  <<"# " \o idtxt>> \o (IF b.nhead = 2 THEN <<"# second header line">> ELSE <<>>)
+  <<IF b.nhead >= 3 THEN "#" ELSE "# " \o idtxt>> \o (IF b.nhead \in {2, 3} THEN <<"# second header line">> ELSE <<>>)
   \o ConsLines(b)
   \o (IF b.corr = "constraint_absent_edge" THEN <<"#S" \o Sep(b) \o edges[1][2] \o Sep(b) \o edges[1][1]>> ELSE <<>>)
   \o (IF b.extra THEN <<"# an extra comment">> ELSE <<>>)
@@ -83,7 +85,8 @@ ConsMeaning(b) ==
 
 Meaning(b, idtxt) ==
   LET edges == Shapes[b.shape] IN
-  [id |-> idtxt, edges |-> edges, constraints |-> ConsMeaning(b),
+  [id |-> IF b.nhead >= 3 THEN "" ELSE idtxt,      \* the FIRST header line, whatever follows it
+   edges |-> edges, constraints |-> ConsMeaning(b),
    n |-> Cardinality(NodesOf(edges)), m |-> Len(edges)]
 IsCorrupt(b) == b.corr # "none"
 (* the constraint "absent edge" line u v reversed is absent unless the reverse edge exists (shape 2 has a<->b) *)
